@@ -278,6 +278,7 @@ func TestC23(t *testing.T) {
 		feats.Histograms, feats.Unary, feats.NoUnaryOnBool, feats.TimeBuiltins = true, true, true, true
 		feats.QuotedKeys, feats.HostileStrings, feats.SmallBuckets = true, true, true
 		feats.PinTypes, feats.OnePatternPerCond, feats.NoMixedMetricReads = true, true, true
+		nAccepted, nBinary := 0, 0 // the binary is run on a bounded sample (three process launches per run)
 		st.Check(t, func(rt *rapid.T) {
 			var c c23Case
 			defer st.Guard(func() any { return c })
@@ -285,7 +286,9 @@ func TestC23(t *testing.T) {
 			c.Src = vstat.Q(g.P.Source())
 			f, res := runC23(c)
 			st.Eval()
-			if res.accepted && f == nil && rapid.IntRange(0, 79).Draw(rt, "binary") == 0 {
+			nAccepted++
+			if res.accepted && f == nil && nAccepted%40 == 0 && nBinary < 300 {
+				nBinary++
 				// the command itself, formatting a file in place
 				f = runMfmtBinary(mfmt, string(c.Src))
 				st.Class("mfmt-binary-run")
